@@ -235,6 +235,9 @@ type Proc struct {
 	// FaultShort: an injected fault that hits a write of two or more bytes stores the first half of the
 	// bytes and then fails with ENOSPC (a short write on a full disk) instead of failing without effect.
 	FaultShort bool
+	// FaultSticky: once one fault has hit the process, every later call of it that needs disk space (create,
+	// temp file, write) fails too, to the end of its program: a disk that stays full.
+	FaultSticky bool
 	Faults    int
 	InCall    bool
 	// waitReady, when set, makes the process runnable only while it returns true (it is parked at a
@@ -317,6 +320,12 @@ func (w *World) enter(op Op, visible bool) *Proc {
 	}
 	if p.FaultAt > 0 && p.OpCount == p.FaultAt && op.Kind != "close" && op.Kind != "remove" {
 		p.faultNext = true
+	}
+	if p.FaultSticky && p.Faults > 0 {
+		switch op.Kind {
+		case "create", "createx", "tempfile", "write", "writefile":
+			p.faultNext = true
+		}
 	}
 	if visible || w.AllVisible {
 		p.point(op)
@@ -441,7 +450,8 @@ func (w *World) OpenFile(name string, flag int, perm os.FileMode) (rt.File, erro
 	}
 	if !wr && ino.Creator >= 0 && ino.Creator != p.ID && (strings.HasSuffix(b, ".reftmp") || strings.HasSuffix(b, ".lock")) {
 		// the visibility reduction assumes nobody reads another process's temp or lock files
-		if w.HarnessErr == nil && !w.AllVisible {
+		// (in atomic mode nothing is interleaved, so there is no reduction to protect)
+		if w.HarnessErr == nil && !w.AllVisible && !w.Atomic {
 			w.HarnessErr = fmt.Errorf("reduction assumption broken: p%d opens %s (created by p%d) for reading", p.ID, b, ino.Creator)
 		}
 	}
